@@ -38,7 +38,7 @@ def floatify(v):
 
 class Engine(EngineBase):
     def budget(self, tier):
-        return (1200, 55.0) if tier == "quick" else (9000, 900.0)
+        return (850, 55.0) if tier == "quick" else (9000, 900.0)
 
     def rule(self):
         return ("seeded scenario (1-5 jobs of assorted state point shapes, cache absent/complete/partial) x "
@@ -126,6 +126,7 @@ class Engine(EngineBase):
         st, cached = read_cache(pp)
         cached = cached if st == "ok" else {}
         pre = snapshot(world.root, mtimes=True)
+        self._pre = pre
         files = []
         for jid in ids:
             with O.io_open(os.path.join(pp, "workspace", jid, SP_FILE), "rb") as f:
@@ -387,6 +388,45 @@ class Engine(EngineBase):
         if self._data_files(pp) != before_files:
             raise Mismatch(P, "C09:repair:changed-data-files",
                            f"{label}: repair() changed documents or data files")
+        # (4) a cache update between the damage and the fresh session must not launder the damage:
+        #     update_cache() either refuses (JobsCorruptedError) or leaves a cache from which
+        #     open-by-id still never yields a state point whose hash differs from the id
+        laundered = "skip"
+        if damaged and (len(res["keys"]) % 3 == 0 or sc.get("only") is not None):
+            from simcore.world import restore as _restore
+            _restore(world.root, self._pre)
+            for d in dset:
+                self._apply(pp, sps, ids, d)
+            try:
+                signac.Project(pp).update_cache()
+                laundered = "cache-updated"
+            except JobsCorruptedError:
+                laundered = "refused"
+            except Exception as e:  # noqa: BLE001
+                raise Mismatch(P, "C09:update_cache:raised-other",
+                               f"{label}: update_cache() on the damaged workspace raised {type(e).__name__}: "
+                               f"{str(e)[:160]}", f"C09:update_cache:raised-{type(e).__name__}")
+            proj = signac.Project(pp)
+            for n in sorted(damaged):
+                for route in ("statepoint", "cached_statepoint"):
+                    try:
+                        job = proj.open_job(id=n)
+                        v = job.statepoint() if route == "statepoint" else dict(job.cached_statepoint)
+                    except Exception:  # noqa: BLE001 - raising is an allowed outcome
+                        continue
+                    try:
+                        good = cid(v) == n
+                    except (TypeError, ValueError):
+                        good = False
+                    if not good:
+                        raise Mismatch(P, "C09:open:accepted-wrong-statepoint-after-update_cache",
+                                       f"{label}: after update_cache() ({laundered}) on the damaged workspace a "
+                                       f"fresh session's open_job(id={n[:8]}).{route} returned {str(v)[:100]} "
+                                       f"whose id is not {n[:8]}",
+                                       "C09:open:accepted-wrong-statepoint-after-update_cache")
+            self_probe = res["stats"]["probes"]
+            self_probe["update_cache_after_damage_" + laundered] = \
+                self_probe.get("update_cache_after_damage_" + laundered, 0) + 1
         res["keys"].append(f"{kinds}|{sorted(c[2] for c in cls.values() if c[0])}|{sc['cache']}|"
                            f"rec={len(recoverable)}/{len(damaged)}|chk={'none' if reported is None else len(reported)}|"
                            f"open={sorted(set(opened.values()))}|rep={'ok' if rep is None else len(rep)}")
